@@ -2,13 +2,15 @@
 
 Implementation: the real `eups.lock.takeLocks` / `giveLocks` (and the `atexit` handler takeLocks registers) run by
 real processes whose file-system calls are released one at a time by a scheduler (harness/lib_lockgate.py).
-Model: lean/EupsModel/Model/Lock.lean through the driver handler "c09" (`run`: same schedule, per step the call and
-its result class; `explore`: the reachable state graph of a configuration and a set of schedules taking every
-transition).
+Model: lean/EupsModel/Model/LockR.lean, LockPathR.lean (the repaired protocol: lock file first, then the look at the
+others; withdrawal; tolerant rmdir; no exit without the lock) through the driver handler "c09" (`run`/`runpath`: same
+schedule, per step the call and its result class; `explore`: the reachable state graph of a configuration and a set of
+schedules taking every transition).
 Oracle (ii), from the real run alone: at no scheduling point are two unrelated processes in their command body with
-one of them holding an exclusive lock; a process that has left through the "trepidation" exit counts as running
-unlocked; when every process has finished nothing is left in the stack; on schedules whose acquisition and release
-phases do not overlap, readers share, a free lock is granted and a child re-enters the lock of its parent.
+one of them holding an exclusive lock (no finding class is left: any such point is a violation); a process in its body
+without a lock on a stack of its path counts as running unlocked; when every process has finished nothing is left in
+the stack; no release raises; on schedules whose acquisition and release phases do not overlap, readers share, a free
+lock is granted, a child re-enters the lock of its parent and an incompatible request is refused.
 """
 import json
 import os
@@ -32,14 +34,12 @@ TRUSTED = ["the step gate serialises the file-system calls of the lockers: one c
            "directory listings are returned newest lock file first (the gate sorts them; POSIX leaves the order open) — "
            "matters only when the second 'exclusive*' listing holds several entries",
            "process identity and environment inheritance (EUPS_LOCK_PID is set by the harness to the parent's real pid)"]
-ASSUMPTIONS = ["one stack (one lock directory) per command; locking enabled (hooks.config.site.lockDirectoryBase is the "
+ASSUMPTIONS = ["locking enabled (hooks.config.site.lockDirectoryBase is the "
                "default '__UPS_DB__' or an absolute path; with None or --nolocks takeLocks makes no call at all, checked separately)",
                "a process takes the lock once; signals (the SIGINT/SIGTERM handler takeLocks installs) are not delivered",
                "stack directory writable (the EACCES branch of takeLocks is not exercised)",
                "related = one process started with the other's pid in EUPS_LOCK_PID; two children of one holder are unrelated",
-               "EUPS_LOCK_PID names a process that itself started without the variable (takeLocks never overwrites it, so every "
-               "descendant inherits the pid of the first locker); the theorems hold for arbitrary maps, the race classification "
-               "(D12a/b/c explain every violation) was explored for such flat maps only"]
+               "the elements of a command's path are distinct (Eups.setEupsPath removes duplicates)"]
 
 CORPUS = os.path.join(common.VERIF, "corpus", "C09")
 WORKERS = 6
@@ -262,26 +262,9 @@ def cmd_cases(rng, nrandom):
 
 
 def residue_class(case, r):
-    """D12f iff every lock file left behind belongs to a process with several stacks in its path whose giveLocks
-    (or the giving-up inside a failed takeLocks) raised, or which left through the trepidation exit and releases
-    only at exit (the exit handler is not registered on that path)."""
-    if case.get("ndirs", 1) < 2:
-        return None
-    files = [f for l in r["residue"] for f in (l if isinstance(l, list) else [l]) if f != G.LOCKDIR]
-    if not files:
-        return None
-    for f in files:
-        if not f[1:].isdigit():
-            return None
-        i = int(f[1:])
-        sp = case["procs"][i]
-        out = r["outcomes"][i]
-        held = (r.get("held") or [None] * len(case["procs"]))[i]
-        raised = out.startswith("failed_release:") or (out.startswith("failed:") and out != "failed:RuntimeError")
-        trep = held is not None and len(held) < len(sp.get("path", [0])) and not sp.get("explicit", True)
-        if len(sp.get("path", [0])) < 2 or not (raised or trep):
-            return None
-    return "D12f"
+    """No open finding about residue is left (D12f is repaired: giveLocks does not raise on the benign races and takeLocks
+    has no exit that skips the exit handler): anything left behind is a violation."""
+    return None
 
 
 def oracle(case, r):
@@ -298,13 +281,21 @@ def oracle(case, r):
         seen.add(key)
         a, b = v["pair"]
         what = "exclusive holder %d and process %d (%s) in their command bodies together after step %d" % (
-            a, b, "unlocked" if v["class"] == "D12c" else "holding", v["step"])
+            a, b, "unlocked" if v.get("unlocked") else "holding", v["step"])
         yield ("mutex", v["class"], what)
     if all(o in ("done",) or o.startswith("failed") for o in r["outcomes"]) and r["residue"]:
         yield ("no_residue", residue_class(case, r), "every process has finished and %r is left" % (r["residue"],))
     for o in r["outcomes"]:
         if o.startswith("crash") or o.startswith("pending") or o == "timeout":
             yield ("terminates", None, "process ended as %s" % o)
+        if o.startswith("failed_release"):
+            yield ("release_never_fails", None, "giveLocks raised: %s" % o)
+    # takeLocks returned (the body ran): with a lock on every stack of the path, of the kind requested
+    for i, sp in enumerate(case["procs"]):
+        held = (r.get("held") or [None] * n)[i]
+        if sp.get("argv") is None and held is not None and sp["kind"] != "N" and sorted(held) != sorted(sp.get("path", [0])):
+            yield ("body_runs_locked", None, "takeLocks of process %d returned locks on stacks %r, its path is %r" % (
+                i, held, sp.get("path", [0])))
     # real command lines: the lock a command holds in its body is the one its kind demands, on every stack of its path
     for i, sp in enumerate(case["procs"]):
         if sp.get("argv") is None:
@@ -339,7 +330,9 @@ def oracle(case, r):
                     holders.remove(i)
                 continue
             steps = r["trace"][t0:t1]
-            got = any(s[1] == "create" and s[2] in ("ok", "EEXIST") for s in steps)
+            # granted: the lock file was put in place and not withdrawn again in this phase
+            got = any(s[1] == "create" and s[2] in ("ok", "EEXIST") for s in steps) and \
+                  [s[1] for s in steps if s[1] in ("create", "isdir")][-1] == "create"
             others = [h for h in holders if h != i]
             unrelated = [h for h in others if not G.related(procs, i, h)]
             k = procs[i]["kind"]
@@ -514,6 +507,33 @@ def phase_case(rng):
 
 # ---- evaluation ---------------------------------------------------------------------------------
 
+def trace_events(trace):
+    """the race-handling paths of the repaired protocol that the real run went through (distribution guard)"""
+    ev = set()
+    last = {}
+    for i, call, res, _v in trace:
+        c = call.split("@")[0]
+        prev = last.get(i)
+        if c == "create" and res == "ENOENT":
+            ev.add("create_found_directory_removed")
+        if c == "rmdir" and res == "ENOTEMPTY":
+            ev.add("rmdir_refused_directory_in_use")
+        if c == "rmdir" and res == "ENOENT":
+            ev.add("rmdir_found_directory_removed")
+        if c == "isdir" and res == "False":
+            ev.add("release_found_directory_removed")
+        if c == "isdir" and prev in ("scan_all", "scan_ex"):
+            ev.add("request_withdrawn")
+        if c == "mkdir" and prev == "rmdir":
+            ev.add("retry_after_withdrawal")
+        if c == "mkdir" and prev == "create":
+            ev.add("retry_after_directory_removed")
+        if c == "mkdir" and res == "EEXIST":
+            ev.add("mkdir_joined_existing_directory")
+        last[i] = c
+    return ev
+
+
 def evaluate(ctx, cases):
     impl = parallel_map(run_case, cases, workers=WORKERS)
     reqs = [model_req(c, r["executed"]) for c, r in zip(cases, impl)]
@@ -573,6 +593,8 @@ def evaluate(ctx, cases):
             ctx.hist("overlapping")
         for v in r["violations"][:1]:
             ctx.hist("mutex_violation=" + str(v["class"]))
+        for ev in trace_events(r["trace"]):
+            ctx.hist("event=" + ev)
         if iv != mv:
             obs = "trace" if iv["trace"] != mv.get("trace") else "outcomes" if iv["outcomes"] != mv.get("outcomes") else "residue"
             note = ""
@@ -628,59 +650,34 @@ def flat_configs(nmax):
     return cfgs
 
 
-def classification_support(ctx, nmax):
-    """Exploration support (model only, not proof), two sanity checks of what the theorems say against the driver's own
-    executable predicates:
-    (1) exploring only steps that are none of the three races (driver op `racefree`) reaches no state violating Mutex
-        and none violating a clause of the invariant behind C09_classification — all flat configurations up to nmax;
-    (2) no quiescent state has residue (C09_no_residue); and, as information, how many violating states are explained
-        by a race that hit the violating pair itself (the finer attribution the class predicates try first)."""
-    import itertools
+def exploration_support(ctx, nmax):
+    """Exploration support (model only, not proof): the complete reachable state graph of every flat configuration of
+    up to nmax processes — what C09_mutex / C09_no_residue say, re-checked with the driver's own executable predicates
+    (no state violating Mutex, no quiescent state with residue), and the number of states with two holders (readers,
+    or parent and child) as evidence that the protocol does grant shared access."""
     cfgs = flat_configs(nmax)
-    answers = ctx.lean.ask_many([{"m": "c09", "op": "racefree", "max": 3000000,
+    answers = ctx.lean.ask_many([{"m": "c09", "op": "explore", "schedules": False, "max": 3000000,
                                   "procs": [{"kind": p["kind"], "lp": p["lp"], "tries": p["tries"]} for p in procs]}
                                  for procs in cfgs])
-    states = 0
+    states = two = 0
     for procs, a in zip(cfgs, answers):
         if "bad-op" in a:
-            raise common.InfraError("race-free exploration failed: %r" % a)
-        states += a["states"]
-        if a["violated"]:
-            raise common.InfraError("race-free exploration of %r: %r does not hold in every reachable state — the driver's "
-                                    "race predicates and the theorem C09_classification disagree" % (procs, a["violated"]))
-    ctx.hist("racefree_states", states)
-    cfgs2 = []
-    for n in range(2, min(nmax, 3) + 1):
-        for ks in itertools.combinations_with_replacement("ES", n):
-            cfgs2.append([P(k) for k in ks])
-            cfgs2.append([P(k, tries=1) for k in ks])
-        for ks in itertools.product("ES", repeat=n):
-            cfgs2.append([P(k, lp=(0 if i == 1 else None)) for i, k in enumerate(ks)])
-            if n == 3:
-                cfgs2.append([P(k, lp=(0 if i >= 1 else None)) for i, k in enumerate(ks)])
-    if nmax >= 4:
-        for ks in itertools.combinations_with_replacement("ES", 4):
-            cfgs2.append([P(k) for k in ks])
-    answers = ctx.lean.ask_many([{"m": "c09", "op": "explore", "monitors": True, "schedules": False, "max": 3000000,
-                                  "procs": [{"kind": p["kind"], "lp": p["lp"], "tries": p["tries"]} for p in procs]}
-                                 for procs in cfgs2])
-    mstates = viol = elsewhere = 0
-    for procs, a in zip(cfgs2, answers):
-        if "bad-op" in a:
             raise common.InfraError("exploration failed: %r" % a)
-        mstates += a["states"]
-        viol += a["violating"]
-        elsewhere += a["unexplained"]
+        states += a["states"]
+        two += a["two_holders"]
         if not a["full"]:
             ctx.note("exploration: state bound hit for %r" % (procs,))
+        if a["violating"]:
+            raise common.InfraError("model exploration: %d states violate Mutex, configuration %r, e.g. schedule %r — the "
+                                    "driver's predicate and the theorem C09_mutex disagree" % (
+                                        a["violating"], procs, a["violating_example"]))
         if a["residue"]:
             raise common.InfraError("model exploration: %d quiescent states with residue, configuration %r, e.g. schedule %r" % (
                 a["residue"], procs, a["residue_example"]))
-    ctx.note("exploration support (model only, not proof): race-free exploration of %d flat configurations of up to %d processes, "
-             "%d states, none violates Mutex or the invariant of C09_classification; %d further configurations with race "
-             "monitors, %d states, %d violate Mutex, %d of them only through a race that hit a process outside the violating "
-             "pair; no quiescent state with residue" % (len(cfgs), nmax, states, len(cfgs2), mstates, viol, elsewhere))
-    ctx.hist("classification_states", mstates)
+    ctx.note("exploration support (model only, not proof): complete state graphs of %d flat configurations of up to %d "
+             "processes, %d states, none violates Mutex, no quiescent state with residue; %d states with two holders" % (
+                 len(cfgs), nmax, states, two))
+    ctx.hist("explored_support_states", states)
 
 
 def run(ctx):
@@ -713,14 +710,17 @@ def run(ctx):
             ctx.note("time budget reached inside the random schedules")
             break
         evaluate(ctx, batch[k:k + 600])
-    classification_support(ctx, ctx.n(3, 4))
+    exploration_support(ctx, ctx.n(3, 4))
     # report the most telling failures first: outside every known class, then the shortest schedules
     ctx.failures.sort(key=lambda f: (f["finding_class"] is not None, len(f["input"]["sched"])))
     if ctx.evaluations < 200 or ctx.histogram.get("overlapping", 0) < 0.3 * ctx.evaluations:
         raise common.InfraError("degenerate distribution: %d cases, %d with overlapping lockers" % (
             ctx.evaluations, ctx.histogram.get("overlapping", 0)))
-    if not any(k.startswith("mutex_violation=") for k in ctx.histogram):
-        raise common.InfraError("no schedule of this run violated exclusion on the implementation: the known races were not exercised")
+    for ev in ("request_withdrawn", "retry_after_withdrawal", "create_found_directory_removed", "retry_after_directory_removed",
+               "rmdir_refused_directory_in_use", "mkdir_joined_existing_directory"):
+        if not ctx.histogram.get("event=" + ev):
+            raise common.InfraError("no schedule of this run took the real code through '%s': the race-handling paths of the "
+                                    "lock protocol were not exercised" % ev)
 
 
 def replay(ctx, rp):
